@@ -191,8 +191,7 @@ def canary(ctx, insts):
                     done += 1
                     break
     ctx.notes['canary_rejections'] = done
-    if done == 0:
-        raise core.MachineryError('Env canary: no behaviour available to corrupt')
+    return done
 
 
 def check(ctx):
@@ -202,7 +201,6 @@ def check(ctx):
     ctx.assume('TLC', 'tensors of the instance are taken from the spec (Instance); projection: npc Array -> dense integer array',
                'float arithmetic on integers below 2^31 and singular values 1, 2 is exact')
     ctx.exhaustive = False
-    t0 = time.time()
     insts = fetch_instances(ctx, [2, 3, 4], 1)
     _INSTS.update(insts)
     scratch = tlc.scratch('Env-cache')
@@ -213,7 +211,7 @@ def check(ctx):
     rnd = random.Random(ctx.seed)
     allcfg = dict(finites=[True, False], kinds=['mps', 'mpo'], shareds=[True, False])
     try:
-        canary(ctx, insts)
+        ncanary = canary(ctx, insts)
         if quick:
             mc_jobs = [
                 ('L2-ops2', mk_cfg([2], s0s=[0, 2], tabs=['gen'], maxops=2, **allcfg), 400),
@@ -233,10 +231,10 @@ def check(ctx):
                 ('L3-ops2', mk_cfg([3], s0s=[0, 1, 2], tabs=['gen', 'z2'], maxops=2, **allcfg), 3000),
                 ('L3-finite-ops3', mk_cfg([3], [True], ['mps', 'mpo'], [True, False], tabs=['gen'], maxops=3), 3000),
                 ('L3-infinite-mpo-ops3', mk_cfg([3], [False], ['mpo'], [False], s0s=[1], tabs=['gen'], maxops=3), 2500),
-                ('L4-ops2', mk_cfg([4], s0s=[0, 1], tabs=['gen', 'z2'], maxops=2, **allcfg), 2000),
+                ('L4-ops2', mk_cfg([4], s0s=[1], tabs=['gen', 'z2'], maxops=2, **allcfg), 2000),
                 ('L2-finite-ops4', mk_cfg([2], [True], ['mpo'], [False], maxops=4), 2000),
             ]
-            sims = [('sim-L23', mk_cfg([2, 3], s0s=[0, 1, 2], tabs=['gen', 'z2'], maxops=14, **allcfg), 600, 15),
+            sims = [('sim-L23', mk_cfg([2, 3], s0s=[0, 1, 2], tabs=['gen', 'z2'], maxops=14, **allcfg), 500, 15),
                     ('sim-L4', mk_cfg([4], s0s=[0, 1], tabs=['gen', 'z2'], maxops=12, **allcfg), 150, 13)]
             par, workers = 2, 4
         with cf.ThreadPoolExecutor(max_workers=par) as ex:
@@ -253,6 +251,8 @@ def check(ctx):
                 shutil.rmtree(d, ignore_errors=True)
                 rep.run_many([(tr[-1][1]['hist'], '%s/%d' % (name, j)) for j, tr in enumerate(traces)])
                 nsim += len(traces)
+        if ncanary == 0 and not ctx.violations and not ctx.known_hits:
+            raise core.MachineryError('Env canary: no conforming behaviour available to corrupt')
         never = sorted(a for a in ACTION_OF.values() if ctx.coverage_actions.get(a, (0, 0))[0] == 0)
         if never:
             raise core.MachineryError('Env: actions never taken in the exhaustive runs: %s' % never)
